@@ -7,8 +7,8 @@ let b01 s = s = "1"
 
 let nal_of_string (s : Stdlib.String.t) : nal =
   match split '.' s with
-  | [ t; l; f; poc; hex ] ->
-      { ntype = n_of_string t; nlayer = n_of_string l; nfirst = b01 f; npoc = n_of_string poc; ndata = bytes_of_hex hex }
+  | [ t; l; f; poc; st; hex ] ->
+      { ntype = n_of_string t; nlayer = n_of_string l; nfirst = b01 f; npoc = n_of_string poc; nstype = n_of_string st; ndata = bytes_of_hex hex }
   | _ -> failwith ("bad nal " ^ s)
 
 let batches_of_string (s : Stdlib.String.t) : nal list list =
@@ -54,3 +54,37 @@ let seidrop (t : Stdlib.String.t array) : Stdlib.String.t =
   | Ok (_, Some d) -> "ok rewrite " ^ hex_of_bytes d
   | Err -> "err"
   | Panic s -> "panic " ^ string_of_n s
+
+let frames (t : Stdlib.String.t array) : Stdlib.String.t =
+  let bs = Stdlib.List.concat (batches_of_string t.(1)) in
+  let fs = ordered_frames (assign_indices ps0 bs) in
+  "ok " ^ (if fs = [] then "-" else Stdlib.String.concat "," (Stdlib.List.map (fun f -> string_of_n f.f_dec ^ ":" ^ string_of_n f.f_pres ^ ":" ^ string_of_n f.f_type) fs))
+
+let extract (p : profile) (t : Stdlib.String.t array) : Stdlib.String.t =
+  let o = opts_of_string t.(1) in
+  let bs = Stdlib.List.concat (batches_of_string t.(2)) in
+  match extract_rpus p o bs with
+  | Ok l -> "ok " ^ (if l = [] then "-" else Stdlib.String.concat "," (Stdlib.List.map hex_of_bytes l))
+  | Err -> "err"
+  | Panic s -> "panic " ^ string_of_n s
+
+let inject (p : profile) (t : Stdlib.String.t array) : Stdlib.String.t =
+  let kv = Stdlib.List.filter_map (fun x -> match split '=' x with [ k; v ] -> Some (k, v) | _ -> None) (split ',' t.(1)) in
+  let g k = try Stdlib.List.assoc k kv with Not_found -> "0" in
+  let io = { io_no_add_aud = b01 (g "noaud"); io_annexb = b01 (g "annexb"); io_drop = b01 (g "drop") } in
+  let bs = Stdlib.List.concat (batches_of_string t.(2)) in
+  let rec parse_all l acc =
+    match l with
+    | [] -> Some (Stdlib.List.rev acc)
+    | h :: tl -> (
+        match parse_unspec62_nalu p src_sw (bytes_of_hex h) with
+        | Ok x -> parse_all tl (x :: acc)
+        | _ -> None)
+  in
+  match parse_all (Stdlib.List.filter (fun x -> x <> "" && x <> "-") (split ',' t.(3))) [] with
+  | None -> "err rpufile"
+  | Some rpus -> (
+      match inject_rpus p io bs rpus with
+      | Ok l -> "ok " ^ wnals l
+      | Err -> "err"
+      | Panic s -> "panic " ^ string_of_n s)
